@@ -138,6 +138,9 @@ def check(run):
                         run.ob("C12.R4", "%s:writes-tymeout:%s" % (f.fq, norm(node)), guarded, run.site(f, node),
                                "" if guarded else "`%s` disables the idle tymeout outside the `if self.persisted` guard" % norm(node))
     run.floor("C12.R4", 1)
+    if run.tier == "thorough":
+        from .. import sweeps
+        run.extra["swallowed_keywords_package_wide"] = sweeps.swallowed_keyword_sweep(run)
 
 
 MUTANTS = [
